@@ -53,8 +53,18 @@ func (p *parser) expression(prec int) (Node, error) {
 		return nil, err
 	}
 
+	return p.infix(node, prec, false)
+}
+
+// infix extends node with the operators and selectors that follow it for as
+// long as they bind tighter than prec. If first is set the current token
+// continues the expression whatever its binding power.
+func (p *parser) infix(node Node, prec int, first bool) (Node, error) {
+	var err error
 	newPrec := precedence(p.curr.Type)
-	for newPrec > prec {
+	for first || newPrec > prec {
+		first = false
+
 		switch p.curr.Type {
 		case lexer.AddToken:
 			if err := p.advance(); err != nil {
@@ -1887,195 +1897,18 @@ func (p *parser) primaryExpression() (Node, error) {
 }
 
 func (p *parser) projection(prec int) (Node, error) {
-	var node Node
-	var err error
 	switch p.curr.Type {
-	case lexer.DotToken:
-		switch p.next.Type {
-		case lexer.ArrayWildcardToken:
-			if err := p.advance2(); err != nil {
-				return nil, err
-			}
-
-			node = &SelectArraySingleCurrentNode{
-				Field: ObjectValuesCurrentNode{},
-			}
-		case lexer.OpenBraceToken:
-			if err := p.advance2(); err != nil {
-				return nil, err
-			}
-
-			node, err = p.selectObject(nil)
-			if err != nil {
-				return nil, err
-			}
-		case lexer.OpenSqBraceToken:
-			if err := p.advance2(); err != nil {
-				return nil, err
-			}
-
-			node, err = p.selectArray(nil)
-			if err != nil {
-				return nil, err
-			}
-		case lexer.QuotedIdentifierToken,
-			lexer.UnquotedIdentifierToken:
-			if err := p.advance(); err != nil {
-				return nil, err
-			}
-
-			node, err = p.expression(prec)
-			if err != nil {
-				return nil, err
-			}
-		default:
-			return nil, &unexpectedTokenError{p.curr.Value}
-		}
-	case lexer.FilterToken:
-		if err := p.advance(); err != nil {
-			return nil, err
-		}
-
-		filter, err := p.filter()
-		if err != nil {
-			return nil, err
-		}
-
-		node = &FilterCurrentNode{
-			Filter: filter,
-		}
-	case lexer.ObjectWildcardToken:
-		if p.next.Type == lexer.EndToken {
-			if err := p.advance(); err != nil {
-				return nil, err
-			}
-
-			node = ObjectValuesCurrentNode{}
-		} else {
-			p.setCurrent(lexer.Token{
-				Type:  lexer.AsteriskToken,
-				Value: p.curr.Value[1:],
-			})
-
-			node, err = p.expression(prec)
-			if err != nil {
-				return nil, err
-			}
-		}
-	case lexer.OpenSqBraceToken:
-		if err := p.advance(); err != nil {
-			return nil, err
-		}
-
-		node, _, err = p.index(nil)
-		if err != nil {
-			return nil, err
-		}
-	default:
-		return nil, nil
+	case lexer.ArrayWildcardToken,
+		lexer.DotToken,
+		lexer.FilterToken,
+		lexer.ObjectWildcardToken,
+		lexer.OpenSqBraceToken:
+		// The first selector always belongs to the right-hand side of the
+		// projection, the ones after it only while they bind tighter than prec.
+		return p.infix(CurrentNode{}, prec, true)
 	}
 
-	newPrec := precedence(p.curr.Type)
-	for newPrec > prec {
-		switch p.curr.Type {
-		case lexer.DotToken:
-			switch p.next.Type {
-			case lexer.ArrayWildcardToken:
-				if err := p.advance2(); err != nil {
-					return nil, err
-				}
-
-				node = &SelectArraySingleNode{
-					Child: node,
-					Field: ObjectValuesCurrentNode{},
-				}
-			case lexer.OpenBraceToken:
-				if err := p.advance2(); err != nil {
-					return nil, err
-				}
-
-				node, err = p.selectObject(node)
-				if err != nil {
-					return nil, err
-				}
-			case lexer.OpenSqBraceToken:
-				if err := p.advance2(); err != nil {
-					return nil, err
-				}
-
-				node, err = p.selectArray(node)
-				if err != nil {
-					return nil, err
-				}
-			case lexer.QuotedIdentifierToken,
-				lexer.UnquotedIdentifierToken:
-				if err := p.advance(); err != nil {
-					return nil, err
-				}
-
-				node, err = p.expression(newPrec)
-				if err != nil {
-					return nil, err
-				}
-			default:
-				return nil, &unexpectedTokenError{p.curr.Value}
-			}
-		case lexer.FilterToken:
-			if err := p.advance(); err != nil {
-				return nil, err
-			}
-
-			filter, err := p.filter()
-			if err != nil {
-				return nil, err
-			}
-
-			node = &FilterNode{
-				Child:  node,
-				Filter: filter,
-			}
-		case lexer.ObjectWildcardToken:
-			if p.curr.Type == lexer.EndToken {
-				if err := p.advance(); err != nil {
-					return nil, err
-				}
-
-				node = &ObjectValuesNode{
-					Child: node,
-				}
-			} else {
-				p.setCurrent(lexer.Token{
-					Type:  lexer.AsteriskToken,
-					Value: p.curr.Value[1:],
-				})
-
-				right, err := p.expression(newPrec)
-				if err != nil {
-					return nil, err
-				}
-
-				node = &ProjectObjectNode{
-					Left:  node,
-					Right: right,
-				}
-			}
-		case lexer.OpenSqBraceToken:
-			if err := p.advance(); err != nil {
-				return nil, err
-			}
-
-			node, _, err = p.index(node)
-			if err != nil {
-				return nil, err
-			}
-		default:
-			return nil, &unexpectedTokenError{p.curr.Value}
-		}
-
-		newPrec = precedence(p.curr.Type)
-	}
-
-	return node, nil
+	return nil, nil
 }
 
 func (p *parser) selectArray(child Node) (Node, error) {
@@ -2202,10 +2035,6 @@ func (p *parser) selectObject(child Node) (Node, error) {
 			return nil, &unexpectedTokenError{p.curr.Value}
 		}
 	}
-}
-
-func (p *parser) setCurrent(tok lexer.Token) {
-	p.curr = tok
 }
 
 func parseJSONLiteral(s string) (Node, error) {
